@@ -137,6 +137,8 @@ public:
 
   void append(const byte* data, usize size)
   {
+    if(buffer && data >= buffer && data <= buffer + _capacity && (data < bufferStart || data + size > bufferEnd))
+      return append(Buffer(data, size)); // data lies in the buffer's own storage outside its bytes, which resize() overwrites or releases
     bool inside = buffer && data >= bufferStart && data <= bufferEnd; // data lies in the buffer itself, which resize() moves or reallocates
     usize offset = inside ? data - bufferStart : 0;
     resize(bufferEnd - bufferStart + size);
